@@ -22,6 +22,7 @@ import Osmium.Lemmas.CxxSem
 import Osmium.Lemmas.SrcTieCoord2
 import Osmium.Lemmas.SrcTieOpl
 import Osmium.Lemmas.SrcTieTs
+import Osmium.Lemmas.SrcTieTs2
 
 namespace Osmium.Conv.C13
 
@@ -527,6 +528,18 @@ theorem src_tie_parse_timestamp_fields (s t : List UInt8) (i : Nat)
   obtain ⟨e1, e2, e3, e4, e5, e6, f1, f2, f3, f4, f5, f6⟩ := h
   refine ⟨by rw [e1]; push_cast; rfl, by rw [e2]; push_cast; rfl, by rw [e3]; push_cast; rfl, by rw [e4]; push_cast; rfl,
     by rw [e5]; push_cast; rfl, by rw [e6]; push_cast; rfl, by simp [f1, f2, f3, f4, f5, f6]⟩
+
+/-- The 37 leading conjuncts of the big condition of `parse_timestamp` (everything before
+    `str[19] == 'Z' || fractional_seconds(s)`), for EVERY NUL-terminated byte string and start position: their value is
+    the model's 19-character test (`tsPattern` = the pattern + `isDigit` chain of `parseTimestamp`: when it fails,
+    `parseTimestamp` is `invalid_argument`), and the left-to-right `&&` chain reads nothing behind the NUL — a string
+    shorter than 19 characters fails AT its NUL. -/
+theorem src_tie_parse_timestamp_pattern (s t : List UInt8) (i : Nat) (hi : i ≤ s.length) :
+    Src.Timestamp.parse_timestamp_cond_pattern (s ++ 0 :: t) i = SrcTie.Ts.tsPattern (s.drop i) ∧
+    Src.Timestamp.parse_timestamp_cond_pattern_defined (s ++ 0 :: t) i = true ∧
+    (SrcTie.Ts.tsPattern (s.drop i) = false → parseTimestamp (s.drop i) = .error .invalidArgument) :=
+  ⟨(SrcTie.Ts.src_tie_parse_timestamp_pattern_main s t i hi).1, (SrcTie.Ts.src_tie_parse_timestamp_pattern_main s t i hi).2,
+   SrcTie.Ts.parseTimestamp_of_not_pattern _⟩
 
 end SrcTies
 
